@@ -37,6 +37,9 @@ CONSTANTS AMs,         \* Alertmanager names, a subset of {"am1","am2","am3"}
           Drain,       \* Options.DrainOnShutdown
           MaxFail,     \* bound on failed HTTP exchanges
           MaxSync,     \* bound on Alertmanager set changes
+          SendHoldsLock, \* TRUE = the code: Manager.Send holds n.mtx (read) from its snapshot of the sets to the end of the fan-out
+          MaxApply,    \* bound on ApplyConfig calls (configuration reloads with an unchanged configuration)
+          Gated,       \* subset of BOOLEAN: may a Send be held between its snapshot and its fan-out (harness gate)?
           JoinFix,     \* TRUE = current code (stop waits for the loop before draining); FALSE = before ce5b29f1f9
           Eager,       \* only schedules a gated harness can reproduce
           Hist,        \* record the history variable (FALSE for liveness checking)
@@ -57,11 +60,17 @@ VARIABLES nextId,      \* next alert to be sent
           lock,        \* "free" | "sync" | "stop": n.mtx / ams.mtx critical section of the owner
           pend,        \* loops still to stop in the current critical section
           mgr,         \* "run" | "stopped"
+          mpc, msnap,  \* Manager.Send in progress: "idle" | "fan"; what it took under the lock: [gen, surv, gated]
+          setgen,      \* generation of the alertmanagerSet objects (ApplyConfig builds new ones and moves the send loops over)
+          applyPend,   \* an ApplyConfig call is waiting for / about to take n.mtx
+          napply,
+          due,         \* ghost: per Alertmanager the alerts every completed Send owed it (survivors, while it had a loop)
           fails, syncs, hist
 
 lvars == <<q, tok, stopped, lpc, lb, spc, sb, recv, acc, cnt, racy>>
-vars == <<nextId, loops, gone, q, tok, stopped, lpc, lb, spc, sb, recv, acc, cnt, racy, lock, pend, mgr, fails, syncs, hist>>
-View == <<nextId, loops, gone, q, tok, stopped, lpc, lb, spc, sb, recv, acc, cnt, racy, lock, pend, mgr, fails, syncs>>
+mvars == <<mpc, msnap, setgen, applyPend, napply, due>>
+vars == <<nextId, loops, gone, q, tok, stopped, lpc, lb, spc, sb, recv, acc, cnt, racy, lock, pend, mgr, mpc, msnap, setgen, applyPend, napply, due, fails, syncs, hist>>
+View == <<nextId, loops, gone, q, tok, stopped, lpc, lb, spc, sb, recv, acc, cnt, racy, lock, pend, mgr, mpc, msnap, setgen, applyPend, napply, due, fails, syncs>>
 
 \* discovery order = order of the slice alertmanagerSet.ams (the harness lists targets in this order)
 Idx(am) == CASE am = "am1" -> 1 [] am = "am2" -> 2 [] am = "am3" -> 3
@@ -93,22 +102,60 @@ AddQ(qq, al) ==
       d2  == Max(Len(qq) + Len(al2) - Cap, 0)       \* queue full: oldest out
   IN [q |-> Drop(qq, d2) \o al2, dropped |-> d1 + d2]
 
-Send(n) ==
+\* Manager.Send, first half: the stop check, n.mtx.RLock, relabelAlerts, and the alertmanager sets it will fan out to.
+\* (In the code the read lock is held until the fan-out is done; SendHoldsLock = FALSE models a Send that only
+\* snapshots under the lock.)
+SendSnap(n, g) ==
   LET ids  == Ids(nextId, nextId + n - 1)
       surv == SelectSeq(ids, LAMBDA i : i \notin DropIds)        \* relabelAlerts
-  IN /\ lock = "free" /\ mgr = "run"
+  IN /\ lock = "free" /\ mgr = "run" /\ mpc = "idle"
+     /\ ~(SendHoldsLock /\ applyPend)                            \* a waiting writer blocks new readers
      /\ nextId + n - 1 <= NAlerts
      /\ nextId' = nextId + n
-     /\ IF surv = <<>> THEN UNCHANGED <<q, tok, acc, cnt>>
-        ELSE /\ q'   = [am \in AMs |-> IF am \in loops THEN AddQ(q[am], surv).q ELSE q[am]]
-             /\ tok' = [am \in AMs |-> IF am \in loops THEN 1 ELSE tok[am]]          \* notifyWork
-             /\ acc' = [am \in AMs |-> IF am \in loops THEN acc[am] \o surv ELSE acc[am]]
-             /\ cnt' = [am \in AMs |-> IF am \in loops
-                                       THEN [cnt[am] EXCEPT !.dropped = @ + AddQ(q[am], surv).dropped]
-                                       ELSE cnt[am]]
-     /\ UNCHANGED <<loops, gone, stopped, lpc, lb, spc, sb, recv, racy, lock, pend, mgr, fails, syncs>>
-     /\ hist' = Log([a |-> "Send", ids |-> ids, surv |-> surv,
-                              after |-> {[am |-> am, q |-> q'[am], dropped |-> cnt'[am].dropped] : am \in loops}])
+     /\ IF surv = <<>> THEN UNCHANGED <<mpc, msnap>>            \* nothing left after relabelling: return
+        ELSE mpc' = "fan" /\ msnap' = [gen |-> setgen, surv |-> surv, gated |-> g]
+     /\ UNCHANGED <<loops, gone, q, tok, stopped, lpc, lb, spc, sb, recv, acc, cnt, racy, lock, pend, mgr, fails, syncs,
+                    setgen, applyPend, napply, due>>
+     /\ hist' = Log([a |-> "Send", ids |-> ids, surv |-> surv, gated |-> g /\ surv # <<>>])
+
+\* Manager.Send, second half: alertmanagerSet.send -> sendLoop.add for every loop of the set object it holds.
+\* A set object replaced by ApplyConfig in the meantime has given its send loops away: nothing is queued.
+SendFan ==
+  LET surv == msnap.surv
+      live == IF msnap.gen = setgen THEN loops ELSE {} IN
+  /\ mpc = "fan"
+  /\ (lock = "free" \/ ~SendHoldsLock)
+  /\ q'   = [am \in AMs |-> IF am \in live THEN AddQ(q[am], surv).q ELSE q[am]]
+  /\ tok' = [am \in AMs |-> IF am \in live THEN 1 ELSE tok[am]]          \* notifyWork
+  /\ acc' = [am \in AMs |-> IF am \in live THEN acc[am] \o surv ELSE acc[am]]
+  /\ cnt' = [am \in AMs |-> IF am \in live
+                            THEN [cnt[am] EXCEPT !.dropped = @ + AddQ(q[am], surv).dropped]
+                            ELSE cnt[am]]
+  /\ due' = [am \in AMs |-> IF am \in loops THEN due[am] \o surv ELSE due[am]]
+  /\ mpc' = "idle"
+  /\ UNCHANGED <<nextId, loops, gone, stopped, lpc, lb, spc, sb, recv, racy, lock, pend, mgr, fails, syncs,
+                 msnap, setgen, applyPend, napply>>
+  /\ hist' = Log([a |-> "SendDone",
+                   after |-> {[am |-> am, q |-> q'[am], dropped |-> cnt'[am].dropped] : am \in loops}])
+
+\* Manager.ApplyConfig with an unchanged configuration (a reload): called ...
+ApplyBegin ==
+  /\ lock = "free" /\ mgr = "run" /\ ~applyPend /\ napply < MaxApply
+  /\ applyPend' = TRUE
+  /\ napply' = napply + 1
+  /\ UNCHANGED <<nextId, loops, gone, q, tok, stopped, lpc, lb, spc, sb, recv, acc, cnt, racy, lock, pend, mgr, fails, syncs,
+                 mpc, msnap, setgen, due>>
+  /\ hist' = Log([a |-> "ApplyBegin"])
+
+\* ... and executed under n.mtx (write): new alertmanagerSet objects take over the send loops of the old ones
+ApplyRun ==
+  /\ applyPend /\ lock = "free"
+  /\ SendHoldsLock => mpc = "idle"
+  /\ setgen' = setgen + 1
+  /\ applyPend' = FALSE
+  /\ UNCHANGED <<nextId, loops, gone, q, tok, stopped, lpc, lb, spc, sb, recv, acc, cnt, racy, lock, pend, mgr, fails, syncs,
+                 mpc, msnap, napply, due>>
+  /\ hist' = Log([a |-> "ApplyEnd"])
 
 -----------------------------------------------------------------------------
 (* Loop(am): sendLoop.loop                                                  *)
@@ -165,21 +212,23 @@ LoopInternal(am) == LoopOuter(am) \/ LoopInnerStop(am) \/ LoopInnerWork(am) \/ L
 
 SyncBegin(S) ==            \* alertmanagerSet.sync: addSendLoops(new), then cleanSendLoops(removed)
   /\ lock = "free" /\ mgr = "run" /\ syncs < MaxSync
+  /\ mpc = "idle" /\ ~applyPend                             \* reload takes n.mtx (write)
   /\ S # loops /\ S \cap gone = {}
   /\ lock' = "sync"
   /\ syncs' = syncs + 1
   /\ loops' = loops \cup S                                   \* go sendLoop.loop() for the new ones
   /\ lpc' = [am \in AMs |-> IF am \in S \ loops THEN "outer" ELSE lpc[am]]
   /\ pend' = loops \ S
-  /\ UNCHANGED <<nextId, gone, q, tok, stopped, lb, spc, sb, recv, acc, cnt, racy, mgr, fails>>
+  /\ UNCHANGED <<nextId, gone, q, tok, stopped, lb, spc, sb, recv, acc, cnt, racy, mgr, fails, mvars>>
   /\ hist' = Log([a |-> "SyncBegin", set |-> S])
 
 StopAllBegin ==            \* Manager.Stop; Run: cleanSendLoops(all) under n.mtx
   /\ lock = "free" /\ mgr = "run"
+  /\ mpc = "idle" /\ ~applyPend                             \* Run's cleanup takes n.mtx (write)
   /\ lock' = "stop"
   /\ mgr' = "stopped"
   /\ pend' = loops
-  /\ UNCHANGED <<nextId, loops, gone, q, tok, stopped, lpc, lb, spc, sb, recv, acc, cnt, racy, fails, syncs>>
+  /\ UNCHANGED <<nextId, loops, gone, q, tok, stopped, lpc, lb, spc, sb, recv, acc, cnt, racy, fails, syncs, mvars>>
   /\ hist' = Log([a |-> "StopBegin"])
 
 InStop == \E am \in AMs : spc[am] \notin {"idle", "done"}
@@ -236,14 +285,14 @@ StopFin(am) ==             \* stop() returns; cleanSendLoops: delete(s.sendLoops
   /\ loops' = loops \ {am}
   /\ gone' = gone \cup {am}
   /\ pend' = pend \ {am}
-  /\ UNCHANGED <<nextId, q, tok, stopped, lpc, lb, sb, recv, acc, cnt, racy, lock, mgr, fails, syncs, hist>>
+  /\ UNCHANGED <<nextId, q, tok, stopped, lpc, lb, sb, recv, acc, cnt, racy, lock, mgr, fails, syncs, hist, mvars>>
 
 StopInternal(am) == StopClose(am) \/ StopJoin(am) \/ StopCount(am) \/ StopDrainCheck(am) \/ StopDTake(am)
 
 OwnerEnd ==                \* the critical section ends (sync returns / Run returns)
   /\ lock # "free" /\ pend = {} /\ ~InStop
   /\ lock' = "free"
-  /\ UNCHANGED <<nextId, loops, gone, q, tok, stopped, lpc, lb, spc, sb, recv, acc, cnt, racy, pend, mgr, fails, syncs>>
+  /\ UNCHANGED <<nextId, loops, gone, q, tok, stopped, lpc, lb, spc, sb, recv, acc, cnt, racy, pend, mgr, fails, syncs, mvars>>
   /\ hist' = Log([a |-> IF lock = "sync" THEN "SyncEnd" ELSE "StopEnd",
                    obs |-> UNION {ObsOf(am, q, recv, cnt) : am \in AMs},
                    \* the spec's verdict: has every accepted alert of a drained loop been attempted?
@@ -263,10 +312,12 @@ Init ==
   /\ cnt = [am \in AMs |-> [sent |-> 0, dropped |-> 0, errors |-> 0]]
   /\ racy = [am \in AMs |-> FALSE]
   /\ lock = "free" /\ pend = {} /\ mgr = "run" /\ fails = 0 /\ syncs = 0
+  /\ mpc = "idle" /\ msnap = [gen |-> 0, surv |-> <<>>, gated |-> FALSE] /\ setgen = 0
+  /\ applyPend = FALSE /\ napply = 0 /\ due = [am \in AMs |-> <<>>]
   /\ hist = <<[a |-> "Init", ams |-> InitAMs, cap |-> Cap, maxBatch |-> MaxBatch, drain |-> Drain,
                dropIds |-> DropIds, nalerts |-> NAlerts]>>
 
-gvars == <<nextId, loops, gone, lock, pend, mgr, syncs>>
+gvars == <<nextId, loops, gone, lock, pend, mgr, syncs, mpc, msnap, setgen, applyPend, napply, due>>
 \* steps of the loop goroutine that need no cooperation of the environment.  Reaching the HTTP
 \* exchange with a non-empty batch is logged ("Arrive"): a harness sees the request at its gate.
 LoopStep(am) ==
@@ -285,7 +336,9 @@ StopStep(am) ==
   \/ StopFin(am)
 
 \* (the end of the owner's critical section needs no cooperation either: sync / Run return)
-Internal == (\E am \in AMs : LoopStep(am) \/ StopStep(am)) \/ OwnerEnd
+Internal == \/ (\E am \in AMs : LoopStep(am) \/ StopStep(am)) \/ OwnerEnd
+            \/ (~msnap.gated /\ SendFan)          \* an ordinary Send runs through
+            \/ ApplyRun
 
 \* an HTTP exchange completes (the harness opens the gate)
 LoopExchangeOK(am) ==
@@ -303,7 +356,9 @@ StopExchangeFail(am) ==
 Exchange == \E am \in AMs : LoopExchangeOK(am) \/ StopExchangeOK(am) \/ LoopExchangeFail(am) \/ StopExchangeFail(am)
 
 External ==
-  \/ \E n \in SendSizes : Send(n) /\ UNCHANGED fails
+  \/ \E n \in SendSizes, g \in Gated : SendSnap(n, g)
+  \/ (msnap.gated /\ SendFan)                     \* the harness opens its gate in alertmanagerSet.send
+  \/ ApplyBegin
   \/ \E S \in SUBSET AMs : SyncBegin(S)
   \/ StopAllBegin
   \/ Exchange
@@ -361,6 +416,9 @@ LossCounted == \A am \in AMs : Lost(am) <= cnt[am].dropped
 \* of alerts already counted as dropped
 LossExact == \A am \in AMs : Lost(am) = cnt[am].dropped \/ (Abandoned(am) /\ racy[am])
 LossExactFix == \A am \in AMs : Lost(am) = cnt[am].dropped
+\* no alert is lost unnoticed on its way into the queues: whatever a completed Send owed an Alertmanager was
+\* accepted by that Alertmanager's send loop (and from there on it is received, held or counted, see above)
+AllAccepted == \A am \in AMs : due[am] = acc[am]
 SentCounted == \A am \in AMs : cnt[am].sent = Len(Flat(recv[am]))
 
 \* with draining, when stop() returns every accepted alert has been attempted or counted
@@ -374,7 +432,7 @@ SyncTerminates == (lock = "sync") ~> (lock # "sync")
 
 -----------------------------------------------------------------------------
 \* complete runs only: print the history when the manager has shut down and no exchange is in flight
-Settled == mgr = "stopped" /\ lock = "free" /\ \A am \in AMs : lpc[am] \notin {"take", "send"}
+Settled == mgr = "stopped" /\ lock = "free" /\ mpc = "idle" /\ ~applyPend /\ \A am \in AMs : lpc[am] \notin {"take", "send"}
 Emit == \/ EmitMode = "none" \/ hist' = hist
         \/ ~Settled' \/ Settled
         \/ PrintT("@@TR " \o ToJson(hist'))
